@@ -44,9 +44,8 @@ impl ForNextCounterMatch {
                 ExpressionType::BuiltIn(_) => Ok(()),
                 _ => Err(LintError::TypeMismatch.at_pos(*pos)),
             },
-            _ => panic!(
-                "It should not be possible for the FOR variable to be something other than a variable"
-            ),
+            // the counter cannot be an array element or a member of a user defined type
+            _ => Err(LintError::VariableRequired.at_pos(*pos)),
         }
     }
 
